@@ -210,9 +210,28 @@ def read_ndjson(path):
     return out
 
 
-def write_ndjson(path, rows):
+INT32_MAX = 2147483647
+
+
+def clamp32(v):
+    """TLC integers are 32-bit: a recorded value outside that range must not wrap around
+    into an innocent one when TLC reads the trace.  Clamp it to +-(2^31-1)."""
+    if isinstance(v, bool):
+        return v
+    if isinstance(v, int):
+        return max(-INT32_MAX, min(INT32_MAX, v))
+    if isinstance(v, list):
+        return [clamp32(x) for x in v]
+    if isinstance(v, dict):
+        return {k: clamp32(x) for k, x in v.items()}
+    return v
+
+
+def write_ndjson(path, rows, clamp=False):
     with open(path, "w") as f:
         for r in rows:
+            if clamp:
+                r = clamp32(r)
             f.write(json.dumps(r, separators=(",", ":")) + "\n")
 
 
